@@ -72,7 +72,8 @@ class ULA(Sampler): # Refactor to Proposal-based sampler?
     def _initialize(self):
         self.scale = self.initial_scale
         self.current_target_logd = self.target.logd(self.current_point)
-        self.current_target_grad = self.target.gradient(self.current_point)
+        # copy: a user-supplied gradient may return (and later refill) its own work buffer
+        self.current_target_grad = self.target.gradient(self.current_point).copy()
 
     def validate_target(self):
         try:
@@ -118,7 +119,7 @@ class ULA(Sampler): # Refactor to Proposal-based sampler?
         x_star = self.current_point + 0.5*self.scale*self.current_target_grad + xi
 
         # evaluate target
-        target_eval_star, target_grad_star = self.target.logd(x_star), self.target.gradient(x_star)
+        target_eval_star, target_grad_star = self.target.logd(x_star), self.target.gradient(x_star).copy()
 
         # accept or reject proposal
         acc = self._accept_or_reject(x_star, target_eval_star, target_grad_star)
